@@ -81,6 +81,52 @@ def load_kf_lines():
     return out
 
 
+
+def parse_race_reports(text):
+    """DATA RACE reports -> {(funcA, funcB) sorted pair of innermost kelindar/column frames: (count, example)}"""
+    out = {}
+    for blk in text.split("WARNING: DATA RACE")[1:]:
+        blk = blk.split("==================")[0]
+        secs = re.split(r"\n(?=(?:Previous )?(?:[Rr]ead|[Ww]rite|atomic [a-z]+) at )", "\n" + blk)
+        frames = []
+        for sec in secs:
+            head = sec.lstrip("\n")
+            if not re.match(r"(?:Previous )?(?:[Rr]ead|[Ww]rite|atomic)", head):
+                continue
+            sec = re.split(r"\nGoroutine \d+", sec)[0]
+            fn = None
+            for line in sec.splitlines():
+                m = re.match(r"\s+(github\.com/kelindar/column\S*?)\(\)?\s*$", line) or re.match(r"\s+(github\.com/kelindar/column[^\s]*)\(", line)
+                if m:
+                    fn = m.group(1)
+                    break
+            if fn is None:
+                fn = "(outside kelindar/column)"
+            fn = re.sub(r"\[[^\]]*\]", "", fn)
+            fn = re.sub(r"(\.func\d+)+(\.\d+)*$", "", fn)
+            frames.append(fn.replace("github.com/kelindar/column", "column"))
+        if len(frames) >= 2:
+            key = tuple(sorted(frames[:2]))
+            cnt, ex = out.get(key, (0, blk[:3000]))
+            out[key] = (cnt + 1, ex)
+    return out
+
+
+def load_race_findings():
+    """finding lines of C18 carry race=<regex>: a report belongs to the finding if either side matches."""
+    out = []
+    if not os.path.exists(KF_FILE):
+        return out
+    for line in open(KF_FILE):
+        line = line.strip()
+        if line.startswith("finding:") and "property=C18" in line:
+            k = re.search(r"\bkey=(\S+)", line)
+            r = re.search(r"\brace=(\S+)", line)
+            if k and r:
+                out.append((k.group(1), re.compile(r.group(1)), line))
+    return out
+
+
 class Proc:
     def __init__(self, name, cmd, env, cwd, log, timeout):
         self.name, self.cmd, self.log, self.timeout = name, cmd, log, timeout
@@ -220,7 +266,7 @@ def base_env(workdir, tag, tier, seed):
     os.makedirs(rep, exist_ok=True)
     env.update({"TMPDIR": tmp, "VERIF_TIER": tier, "VERIF_SEED": str(seed), "VERIF_REPLAY_DIR": rep,
                 "VERIF_KF_FILE": KF_FILE, "VERIF_STATS": os.path.join(workdir, "stats-%s.json" % tag),
-                "GORACE": "halt_on_error=0 history_size=3", "GOMAXPROCS": env.get("GOMAXPROCS", "16")})
+                "GORACE": "halt_on_error=0 history_size=3 log_path=%s" % os.path.join(workdir, "race-" + tag), "GOMAXPROCS": env.get("GOMAXPROCS", "16")})
     return env, cwd
 
 
@@ -314,6 +360,15 @@ def _run_check(prop, tier, spec, seed, t0, workdir):
         if timed_out or "panic: test timed out" in out:
             inconclusive.append("%s timed out\n%s" % (s["name"], tail(s["log"], 30)))
             continue
+        if s["test"].get("race"):
+            full = open(s["log"], errors="replace").read()
+            if "C18-VIOLATION" in full:
+                lg = os.path.join(workdir, "replays", "%s__log__%s.txt" % (prop, s["name"]))
+                shutil.copy(s["log"], lg)
+                violations.append((save_replay(prop, lg, "log"), "\n".join(l for l in full.splitlines() if "C18-VIOLATION" in l)[:2000]))
+            elif rc not in (0, 1):
+                inconclusive.append("%s exited with %s\n%s" % (s["name"], rc, tail(s["log"], 40)))
+            continue
         if rc == 1 and "--- FAIL" in out:
             # a real test failure: find its replay file
             fails = glob.glob(os.path.join(s["cwd"], "testdata", "rapid", "**", "*.fail"), recursive=True)
@@ -333,12 +388,38 @@ def _run_check(prop, tier, spec, seed, t0, workdir):
             continue
         inconclusive.append("%s exited with %s\n%s" % (s["name"], rc, tail(s["log"], 40)))
 
+    race_pairs = {}
+    for f in glob.glob(os.path.join(workdir, "race-*")):
+        for key, (cnt, ex) in parse_race_reports(open(f, errors="replace").read()).items():
+            c0, e0 = race_pairs.get(key, (0, ex))
+            race_pairs[key] = (c0 + cnt, e0)
+    race_known = {}
+    if race_pairs or any(t.get("race") for t in spec["tests"]):
+        findings = load_race_findings()
+        for key, (cnt, ex) in sorted(race_pairs.items()):
+            hit = None
+            for slug, rx, line in findings:
+                if rx.search(key[0]) or rx.search(key[1]):
+                    hit = slug
+                    break
+            if hit:
+                race_known.setdefault(hit, []).append("%s <-> %s (x%d)" % (key[0], key[1], cnt))
+            else:
+                rp = os.path.join(workdir, "replays", "%s__race__%d.txt" % (prop, len(violations)))
+                open(rp, "w").write("unlisted data race: %s <-> %s (%d reports)\n\nWARNING: DATA RACE%s" % (key[0], key[1], cnt, ex))
+                violations.append((save_replay(prop, rp, "race"), "data race between %s and %s (%d reports) is not a listed finding" % (key[0], key[1], cnt)))
+        for slug, rx, line in findings:
+            if slug in race_known:
+                print("KNOWN-FINDING: property=%s key=%s %s [observed: %s]" % (prop, slug, re.sub(r"^finding:\s*property=\S+\s+key=\S+\s+race=\S+\s*", "", line)[:400], "; ".join(race_known[slug][:4])))
     agg, kf = merge_stats(stats_files, prop)
     # every listed finding whose reproduction still fails and whose switch this run consulted
     for slug, st in sorted(kf.items()):
         if st["checked"] and st["failed"] and slug in listed:
             print("KNOWN-FINDING: property=%s key=%s %s [reproduction: %s]" % (prop, slug, st["what"], st["detail"][:300].replace("\n", " | ")))
     extra = {"processes": len(specs), "tests": [t["run"] for t in spec["tests"]]}
+    if race_pairs:
+        extra["race_reports"] = {"%s <-> %s" % k: v[0] for k, v in sorted(race_pairs.items())}
+        extra["race_reports_by_known_finding"] = race_known
     if short_runs:
         extra["short_rapid_runs"] = short_runs
     if inconclusive:
